@@ -136,18 +136,10 @@ def shard(args):
 
     def stat(k, n=1):
         out["stats"][k] = out["stats"].get(k, 0) + n
-    todo, results = lines, {}
-    while todo:
-        res, witness, r = c13.run_harness(binary, todo, work)
-        results.update(res)
-        if witness is None:
-            break
-        c = cases.get(witness, {})
-        cls = c13.crash_class(r) or "rc=%s" % r.rc
-        out["viol"].append(("differentiate:%s:%s" % (c13.crash_kind(cls, r.err), c13.frame_of(r.err)),
-                            "%s while differentiating %r\n%s" % (cls, c.get("formula"), r.err[-2500:]), {"formula": c.get("formula"), "line": c.get("line")}))
-        k = next((j for j, ln in enumerate(todo) if ln.split(c13.SEP, 1)[0] == witness), len(todo) - 1)
-        todo = todo[k + 1:]
+    results, crashes, counters = c13.drive(binary, lines, work, "differentiate", lambda w: "the formula %r" % (cases.get(w, {}).get("formula"),))
+    out["viol"] += crashes
+    for k, v in counters.items():
+        stat(k, v)
     for cid, c in cases.items():
         f = results.get(cid)
         if f is None or not f or f[0] != "ok":
